@@ -231,6 +231,79 @@ def aftermath_case(args):
     return out
 
 
+# context dictionaries whose values compare equal in Python although they are different arguments (and some that do not)
+LOOKALIKE_CTX = [{"level": 1}, {"level": True}, {"level": 1.0}, {"level": "1"}, {"level": 0}, {"level": False}, {"level": [1]}, {"level": [True]},
+                 {"level": 1, "k": 2}, {"k": 2}]
+
+
+def reattach_case(args):
+    """Context arguments attached to a function object that already carries some replace them (as on an inner edge); and
+    forget() through a function object that carries context arguments forgets the call made under them, nothing else."""
+    from .c15 import mk_backend, use
+    from .. import audit
+    from ..fixtures import c10fx as fx
+
+    kind, A, B, op = args
+    A, B = dict(A), dict(B)  # (two dictionary objects, as the documentation of with_context_args asks)
+    plan = [["c", 3, []]]
+    top = scratch_dir("c16r")
+    out = {"evaluations": 1, "states": 1, "transitions": 2, "traces": 1, "violations": [], "outcomes": ["reattach|%s|%s|%s|%s" % (kind, A, B, op)]}
+    try:
+        use(mk_backend(kind, os.path.join(top, "s")))
+        bad = None
+        hA, hB = (fx.n1.with_context_args(c).fn_reference().with_args(plan, _memento_context_args=c).arg_hash for c in (A, B))
+        stored = lambda c, node=fx.n1, pl=plan: (node.with_context_args(dict(c)) if c is not None else node).memento(pl) is not None  # noqa
+        if op == "call":
+            f = fx.n1.with_context_args(A).with_context_args(B)
+            audit.bodies_reset()
+            got = f(plan)
+            if got != ["n1", ["n3"]]:
+                bad = ("wrong-value", "the call gave %r" % (got,))
+            elif not stored(B) or not stored(B, fx.n3, []):
+                bad = ("not-under-new-context", "after attaching %r and then %r the call (or its nested call) is not stored under %r" % (A, B, B))
+            elif hA != hB and (stored(A) or stored(A, fx.n3, [])):
+                bad = ("under-replaced-context", "after attaching %r and then %r the call is stored under %r" % (A, B, A))
+            elif stored(None):
+                bad = ("under-no-context", "the call is also stored without context arguments")
+        elif op == "call-after-first":
+            # the call was made under A before; B is attached to the object that carries A
+            fa = fx.n1.with_context_args(A)
+            fa(plan)
+            audit.bodies_reset()
+            fa.with_context_args(B)(plan)
+            ran = [b[0] for b in audit.bodies()]
+            want = [] if hA == hB else ["n1", "n3"]
+            if ran != want:
+                bad = ("served-across-contexts" if not ran else "recomputed", "under %r after a call under %r the bodies %s ran, expected %s" % (B, A, ran, want))
+            elif not stored(B) or not stored(B, fx.n3, []):
+                bad = ("not-under-new-context", "the call under %r (made through the object carrying %r) is not stored under %r" % (B, A, B))
+        else:  # forget
+            fx.n1(plan)
+            fx.n1.with_context_args(A)(plan)
+            if hA != hB:
+                fx.n1.with_context_args(B)(plan)
+            fx.n1.with_context_args(A).forget(plan)
+            if stored(A):
+                bad = ("forget-missed", "forget(...) through the function carrying %r left the call under %r in place" % (A, A))
+            elif not stored(None):
+                bad = ("forget-too-wide", "forget(...) through the function carrying %r removed the call stored without context arguments" % (A,))
+            elif hA != hB and not stored(B):
+                bad = ("forget-too-wide", "forget(...) through the function carrying %r removed the call stored under %r" % (A, B))
+            else:
+                audit.bodies_reset()
+                fx.n1(plan)
+                fx.n1.with_context_args(A)(plan)
+                ran = [b[0] for b in audit.bodies()]
+                if ran != ["n1"]:
+                    bad = ("forget-aftermath", "after the forget, the plain call and the call under %r ran bodies %s (expected the forgotten one only)" % (A, ran))
+        if bad:
+            out["violations"].append(("reattach|%s|%s|%s" % (kind, op, bad[0]), bad[1] + "\nbackend=%s first context=%r second context=%r" % (kind, A, B),
+                                      {"reattach": [kind, A, B, op]}))
+    finally:
+        rm(top)
+    return out
+
+
 def run(ctx):
     thorough = ctx.tier == "thorough"
     ctx.rule = ("chain root->mid->leaf (9 edge-override assignments) and diamond root->{mid1,mid2}->leaf (%d assignments) x ordered "
@@ -272,6 +345,12 @@ def run(ctx):
     at = [(kind, what, k) for kind in ("mem", "fsc") for what in ("context", "prevented") for k in (1, 2, 3)]
     ctx.merge(pmap(aftermath_case, at, chunksize=2))
     ctx.rule += " Plus: a call under context arguments / with calls prevented that fails because the store raises at its k-th look-up (k = 1..3); the next ordinary calls are unaffected."
+    rt = [(kind, A, B, op) for kind in (("mem", "fsc") if not thorough else ("mem", "fs", "fsc")) for A in LOOKALIKE_CTX for B in LOOKALIKE_CTX
+          for op in ("call", "call-after-first", "forget")]
+    ctx.merge(pmap(reattach_case, rt, chunksize=8))
+    ctx.rule += (" Plus: all ordered pairs of %d context dictionaries whose values are look-alikes (1 / True / 1.0 / '1' / 0 / False / [1] / [True]) attached "
+                 "one after the other to ONE function object (call, call after a call under the first, forget through the carrying object)." % len(LOOKALIKE_CTX))
+    ctx.extra["reattach_cases"] = len(rt)
     ctx.extra["context_pair_cases"] = len(tasks)
     ctx.extra["prevent_further_calls_cases"] = len(ptasks)
     ctx.sample({"pair": list(tasks[len(tasks) // 2])})
@@ -282,6 +361,12 @@ def replay(ctx, art):
     a = art["artefact"]
     if "scn" in a:
         return c09.replay_concurrent("C16", art)
+    if "reattach" in a:
+        r = reattach_case(tuple(a["reattach"]))
+        for v in r["violations"]:
+            print(v[0], "\n", v[1])
+        print("REPLAY property=C16 result=%s" % bool(r["violations"]))
+        return 1 if r["violations"] else 0
     if "aftermath" in a:
         r = aftermath_case(tuple(a["aftermath"]))
         for v in r["violations"]:
